@@ -254,8 +254,19 @@ func (h *h1Client) Hdr(tok string, respSize int) error {
 	return h.write([]byte(fmt.Sprintf("POST /c11/%s HTTP/1.1\r\nHost: c11.local\r\nX-Token: %s\r\nX-Resp-Size: %d\r\nContent-Length: %d\r\n\r\n",
 		tok, tok, respSize, reqBody)))
 }
-func (h *h1Client) HalfBody() error { return h.write([]byte(strings.Repeat("b", reqBody/2))) }
-func (h *h1Client) Rest() error     { return h.write([]byte(strings.Repeat("b", reqBody-reqBody/2))) }
+
+// Begin prepares request tok without writing anything: the complete bytes and three cut points (inside the request
+// line, inside the header block, inside the body).
+func (h *h1Client) Begin(tok string, respSize int) ([]byte, [3]int) {
+	h.tok, h.want, h.resp, h.got = tok, respSize, nil, 0
+	head := fmt.Sprintf("POST /c11/%s HTTP/1.1\r\nHost: c11.local\r\nX-Token: %s\r\nX-Resp-Size: %d\r\nContent-Length: %d\r\n\r\n",
+		tok, tok, respSize, reqBody)
+	line := strings.Index(head, "\r\n")
+	return []byte(head + strings.Repeat("b", reqBody)), [3]int{line / 2, line + 2 + (len(head)-line-2)/2, len(head) + reqBody/2}
+}
+func (h *h1Client) WriteRaw(b []byte) error { return h.write(b) }
+func (h *h1Client) HalfBody() error         { return h.write([]byte(strings.Repeat("b", reqBody/2))) }
+func (h *h1Client) Rest() error             { return h.write([]byte(strings.Repeat("b", reqBody-reqBody/2))) }
 
 func (h *h1Client) ReadHalf() error {
 	h.c.SetReadDeadline(time.Now().Add(ioWait))
@@ -346,8 +357,22 @@ func (b *boltClient) Hdr(tok string, respSize int) error {
 	b.cut1 = len(b.frame) - reqBody
 	return b.write(b.frame[:b.cut1])
 }
-func (b *boltClient) HalfBody() error { return b.write(b.frame[b.cut1 : b.cut1+reqBody/2]) }
-func (b *boltClient) Rest() error     { return b.write(b.frame[b.cut1+reqBody/2:]) }
+
+// Begin prepares request tok without writing anything: the complete frame and three cut points (inside the 22-byte
+// protocol header, inside the header block, inside the content).
+func (b *boltClient) Begin(tok string, respSize int) ([]byte, [3]int) {
+	b.id++
+	b.tok, b.want, b.head, b.got = tok, respSize, nil, 0
+	f := &Frame{Type: 1, Cmd: 1, ID: b.id, Timeout: 60000, Class: "c11.Req",
+		Header: [][2]string{{"service", "c11"}, {"token", tok}, {"respsize", strconv.Itoa(respSize)}}, Content: []byte(strings.Repeat("b", reqBody))}
+	b.frame = f.Encode()
+	b.cut1 = len(b.frame) - reqBody
+	fixed := 22 + len(f.Class)
+	return b.frame, [3]int{10, fixed + (b.cut1-fixed)/2, b.cut1 + reqBody/2}
+}
+func (b *boltClient) WriteRaw(p []byte) error { return b.write(p) }
+func (b *boltClient) HalfBody() error         { return b.write(b.frame[b.cut1 : b.cut1+reqBody/2]) }
+func (b *boltClient) Rest() error             { return b.write(b.frame[b.cut1+reqBody/2:]) }
 
 func (b *boltClient) readHead() error {
 	b.c.SetReadDeadline(time.Now().Add(ioWait))
